@@ -106,7 +106,8 @@ let parse_ttls (s : string) : (int * int64) list list =
             | _ -> failwith "bad ttl token") (String.split_on_char ',' sec))
     (String.split_on_char '|' s)
 
-(* the property on reported TTLs: OPT unchanged, every other record <= max 1 (ttl - delta) and >= 1 *)
+(* the property on reported TTLs, literally: OPT unchanged, every other record <= max 1 (ttl - delta).
+   (a served TTL of 0 differs from the model - reported as a mismatch - but is not above the property's bound) *)
 let ttl_spec (m : msg) (delta : n) (got : (int * int64) list list) (rest : string) : string =
   if rest <> "same" then "FAIL:something-besides-ttl-changed" else
   let orig = [m.m_an; m.m_ns; m.m_ar] in
@@ -119,7 +120,6 @@ let ttl_spec (m : msg) (delta : n) (got : (int * int64) list list) (rest : strin
         else begin
           let bound = n64 (aged delta r.r_ttl) in
           if Int64.compare tt bound > 0 then bad := Printf.sprintf "FAIL:ttl-%Ld-above-bound-%Ld" tt bound
-          else if Int64.compare tt 1L < 0 then bad := "FAIL:ttl-below-1"
         end) o g) orig got;
     !bad
   end
@@ -221,7 +221,73 @@ let run_cachehist parts =
     String.concat " " toks
   end
 
+
+(* ---------- kind: routerhist (router level: which requests store) ---------- *)
+type qop = { qat : int; qkey : int; qbeh : string }
+
+let parse_qops (s : string) : qop list =
+  List.map (fun tok -> match String.split_on_char '.' tok with
+      | [_; at; key; beh] -> { qat = int_of_string at; qkey = int_of_string key; qbeh = beh }
+      | _ -> failwith ("bad op " ^ tok)) (String.split_on_char ',' s)
+
+let upstream_of (beh : string) : upstream_result =
+  match beh with
+  | "fail" -> UpFail
+  | "nx" -> UpReply (c08_msg 1 3 false [])
+  | "nd" -> UpReply (c08_msg 1 0 false [])
+  | "sf" -> UpReply (c08_msg 1 2 false [])
+  | "rf" -> UpReply (c08_msg 1 5 false [])
+  | "tc" -> UpReply (c08_msg 1 0 true [60L])
+  | _ -> let t = Int64.of_string (String.sub beh 1 (String.length beh - 1)) in
+    UpReply (c08_msg 1 0 false [t; Int64.add t 5L])
+
+let tok_of (pfx : string) (m : msg) : string =
+  Printf.sprintf "%s%d%s:%s" pfx (int_of_n m.m_hdr.h_rcode) (if m.m_hdr.h_tc then "t" else "")
+    (String.concat "_" (List.map (fun r -> nstr r.r_ttl) m.m_an))
+
+(* the request path of handleReq, step by step on the model state: Get; on a miss the upstream result decides through
+   [handle_req_store] whether and what is stored *)
+let router_run (mx : z) (ops : qop list) (phase_ms : int) (collect : int) : string list =
+  let t0_ms = 1_000_000 in
+  let clock_at (ms : int) : int = 999 + (ms + 1000 - phase_ms) / 1000 in
+  let st = ref (init_state (n_of_int 990)) in
+  let si = ref 0 in
+  List.map (fun op ->
+      let t = z_ns_of_ms (t0_ms + op.qat) in
+      let k = n_of_int op.qkey in
+      let do_ev ev = let (st', o) = step mx !st ev in st := st'; o in
+      ignore (do_ev (EvTick (n_of_int (clock_at op.qat))));
+      match do_ev (EvGet (t, k)) with
+      | OHit (m, _, _) -> ignore (handle_req_store PathHit); tok_of "C" m
+      | _ ->
+        let u = upstream_of op.qbeh in
+        let bit = (collect lsr !si) land 1 in
+        incr si;
+        (match handle_req_store (PathMiss u) with
+         | Some resp ->
+           if bit = 1 then ignore (do_ev (EvCollect k));
+           ignore (do_ev (EvStore (t, z_of_int 1000, k, resp, true)))
+         | None -> ());
+        (match u with UpReply m -> tok_of "U" m | UpFail -> "U2:")) ops
+
+let run_routerhist parts =
+  let f = fields parts in
+  let mx = init_max_ttl (z_of_int64 (Int64.of_string (fld f "maxttl"))) in
+  let ops = parse_qops (fld f "ops") in
+  let nq = min 10 (List.length ops) in
+  let runs = ref [] in
+  for p = 0 to 19 do
+    for c = 0 to (1 lsl nq) - 1 do
+      runs := router_run mx ops (25 + 50 * p) c :: !runs
+    done
+  done;
+  let toks = List.init (List.length ops) (fun i ->
+      let alts = List.sort_uniq compare (List.map (fun r -> List.nth r i) !runs) in
+      match alts with [a] -> a | _ -> "E[" ^ String.concat "|" alts ^ "]") in
+  String.concat " " toks
+
 let () =
+  register "routerhist" run_routerhist;
   register "policy" run_policy;
   register "policyspec" run_policyspec;
   register "ttl" run_ttl;
